@@ -300,6 +300,19 @@ def local_unpacked_from(src_role: str, index: int):
     return find
 
 
+def local_passed_to(func_text: str, index: int):
+    """finder: the unique local handed as positional argument `index` to calls of `func_text` (e.g. 'Molecule', 'self._parse_bond')"""
+
+    def find(asg, fn):
+        hits = set()
+        for c in ast.walk(fn):
+            if isinstance(c, ast.Call) and ast.unparse(c.func) == func_text and len(c.args) > index and isinstance(c.args[index], ast.Name):
+                hits.add(c.args[index].id)
+        return hits.pop() if len(hits) == 1 else None
+
+    return find
+
+
 def loop_var_over(text: str):
     """finder: the variable(s) that range over `text` in for-loops / comprehensions (`for x in T`, `for i, x in enumerate(T)`)"""
 
